@@ -126,6 +126,10 @@ func c14Walk(c *Ctx, viol func(clause, detail string), uncast, cast interface{},
 		if seq && key == "#seq" && deepEq(uncast, cast) {
 			return true
 		}
+		// ... and the "_seq" numbers IncludeTagSeqNum documents (integers, the same with and without casting)
+		if cfg.SeqNum && key == "_seq" && deepEq(uncast, cast) {
+			return true
+		}
 		viol("uncast-non-string", fmt.Sprintf("uncast decode has a non-string leaf %s under %q", dump(uncast), key))
 		return false
 	}
@@ -209,7 +213,7 @@ func c14Check(c *Ctx, doc string, cfg Cfg, seq bool) (nontrivial bool) {
 
 func c14Run(c *Ctx) {
 	mustBeDefault(c)
-	c.S.Rule = "cases = (document template, leaf spelling, cast options, skip function, decoder): templates put the spelling in element, attribute, text-key (beside an attribute), text-before-child, text-after-child, list-member, root and sibling positions; spellings = integers incl. 64-bit boundaries, decimal/exponent/hex floats, overflowing numerals, every case variant and signed spelling of nan/inf plus infinity spellings, booleans accepted and rejected by ParseBool, ordinary text; all 16 combinations of cast-to-int/float/bool/NaN-Inf x skip function {none, element key, attribute key, text key} x {simple-as-map off,on} x {Map, MapSeq decoder}; plus histories: for 4 templates x every spelling, all 16 cast combinations in descending then ascending order within one process, each with its setters called in every order (up to 24). Oracle: same structure and keys as the uncast decode, uncast leaves are strings, each cast leaf equals the documented cast of its text, Json() of the cast Map succeeds unless CastNanInf is on, x2j-wrapper.DocToJson agrees. non-trivial = casting changed at least one leaf."
+	c.S.Rule = "cases = (document template, leaf spelling, cast options, skip function, decoder): templates put the spelling in element, attribute, text-key (beside an attribute), text-before-child, text-after-child, list-member, root and sibling positions; spellings = integers incl. 64-bit boundaries, decimal/exponent/hex floats, overflowing numerals, every case variant and signed spelling of nan/inf plus infinity spellings, booleans accepted and rejected by ParseBool, ordinary text; all 16 combinations of cast-to-int/float/bool/NaN-Inf x skip function {none, element key, attribute key, text key} x {simple-as-map off,on} x {Map, MapSeq decoder}, the Map decoder also under IncludeTagSeqNum; plus histories: for 4 templates x every spelling, all 16 cast combinations in descending then ascending order within one process, each with its setters called in every order (up to 24). Oracle: same structure and keys as the uncast decode, uncast leaves are strings, each cast leaf equals the documented cast of its text, Json() of the cast Map succeeds unless CastNanInf is on, x2j-wrapper.DocToJson agrees. non-trivial = casting changed at least one leaf."
 	c.S.Assumptions = []string{"the sequence decoder never consults the skip function (documented)"}
 	tmpl := []string{
 		`<r><k>S</k></r>`, `<r><e k="S"/></r>`, `<r><k x="1">S</k></r>`, `<r><k>S<c/></k></r>`, `<r><k><c/>S</k></r>`,
@@ -233,6 +237,16 @@ func c14Run(c *Ctx) {
 								continue
 							}
 							doc := strings.ReplaceAll(t, "S", xmlEsc(s, true))
+							if !seq && !sm && (skip == "" || c.Thorough) {
+								// the same under IncludeTagSeqNum: the structure the option prescribes is the same with and without casting
+								cfgN := cfg
+								cfgN.SeqNum = true
+								c.S.States++
+								c.S.Evaluations++
+								c.S.Schedules++
+								rt.OrderPolicy = rt.PolicySorted
+								c14Check(c, doc, cfgN, false)
+							}
 							c.S.States++
 							c.S.Evaluations++
 							c.S.Schedules++
